@@ -350,7 +350,15 @@ pub struct ExCase {
     /// unrelated entries: (directory selector, node)
     pub extras: Vec<(u16, MNode)>,
     pub opts: Opts,
+    /// every destination directory `d` that has a sibling named `d` + a byte below `/` gets one
+    /// more unrelated file whose name sorts after everything else in it
+    #[serde(default)]
+    pub tail_extra: bool,
 }
+
+/// suffixes that make `name + suffix` sort before `name/x` bytewise but after it by component
+const PREFIX_SUFFIXES: [&[u8]; 8] = [b".txt", b"-bar", b" ", b"!", b".", b"+1", b",", b"#x"];
+const TAIL_NAME: &[u8] = b"\xff\xff\xffz-last";
 
 fn small_dir(p: TreeParams) -> BoxedStrategy<MNode> {
     (name(), prop::collection::vec(leaf(p), 0..3), perm(), mtime())
@@ -490,9 +498,32 @@ fn ex_strategy(ctx: &Ctx) -> BoxedStrategy<ExCase> {
                     0..4,
                 ),
                 opts_strategy(),
+                prop::option::weighted(0.35, (any::<u16>(), 0usize..PREFIX_SUFFIXES.len(), prop::bool::weighted(0.7))),
             )
         })
-        .prop_map(|(cfg, mut tree, zf, keep_hardlinks, sub, base, muts, extras, opts)| {
+        .prop_map(|(cfg, mut tree, zf, keep_hardlinks, sub, base, muts, extras, opts, prefix)| {
+            let mut tail_extra = false;
+            if let Some((sel, suffix, tail)) = prefix {
+                // a directory and a sibling whose name is the directory's name plus a byte below '/'
+                let dirs: Vec<Vec<usize>> = paths_where(&tree, &|n| n.is_dir())
+                    .into_iter()
+                    .filter(|p| !p.is_empty() && crate::r#gen::node_at(&tree, &p[..p.len() - 1]).children().len() > 1)
+                    .collect();
+                if !dirs.is_empty() {
+                    let dp = dirs[pick_idx(sel, dirs.len())].clone();
+                    let (parent, i) = (dp[..dp.len() - 1].to_vec(), dp[dp.len() - 1]);
+                    let dname = crate::r#gen::node_at(&tree, &dp).name.clone();
+                    let par = node_at_mut(&mut tree, &parent);
+                    let n = par.children().len();
+                    let j = (i + 1) % n;
+                    let new_name = [&dname[..], PREFIX_SUFFIXES[suffix]].concat();
+                    if new_name.len() < 250 && !par.children().iter().any(|c| c.name == new_name) && par.children()[j].links <= 1 {
+                        par.children_mut().expect("dir")[j].name = new_name;
+                        tree.normalise();
+                        tail_extra = tail;
+                    }
+                }
+            }
             if !keep_hardlinks {
                 // most cases: no hardlink groups, so that the search is not dominated by them
                 fn dissolve(n: &mut MNode, next: &mut u64) {
@@ -523,6 +554,7 @@ fn ex_strategy(ctx: &Ctx) -> BoxedStrategy<ExCase> {
                 muts,
                 extras,
                 opts,
+                tail_extra,
             }
         })
         .boxed()
@@ -687,6 +719,34 @@ fn build_dest_model(top: &[MNode], c: &ExCase) -> MNode {
         }
         det(&mut e);
         dir.children_mut().expect("dir").push(e);
+    }
+    if c.tail_extra {
+        fn add_tails(n: &mut MNode) {
+            let names: Vec<Vec<u8>> = n.children().iter().map(|c| c.name.clone()).collect();
+            if let Some(ch) = n.children_mut() {
+                for c in ch.iter_mut() {
+                    let prefixed = names
+                        .iter()
+                        .any(|o| o.len() > c.name.len() && o.starts_with(&c.name) && o[c.name.len()] < b'/');
+                    if c.is_dir() && prefixed && !c.children().iter().any(|x| x.name == TAIL_NAME) {
+                        c.children_mut().expect("dir").push(MNode {
+                            name: TAIL_NAME.to_vec(),
+                            kind: MKind::File { content: Content::lit(b"unrelated".to_vec()) },
+                            perm: 0o644,
+                            mtime: MTime(OLD, 0),
+                            ctime: MTime(OLD, 0),
+                            uid: 0,
+                            gid: 0,
+                            inode: 0,
+                            device: 0,
+                            links: 1,
+                        });
+                    }
+                    add_tails(c);
+                }
+            }
+        }
+        add_tails(&mut d);
     }
     d
 }
